@@ -67,11 +67,10 @@ CACHE = Instance(
 
 def cache_ok(self):
     """representation invariant (the constructor): the normalisation tolerance is a tenth of
-    the reuse tolerance; C06: reuse is either disabled (-1) or uses ANY non-negative
-    tolerance.  (Tolerance 0 violates picosvg's precondition: known finding F9.)"""
-    return self._normalize_tolerance == self._reuse_tolerance / 10 and (
-        self._reuse_tolerance == -1 or self._reuse_tolerance >= 0
-    )
+    the reuse tolerance; C06 and the option's help text: ANY negative value disables reuse,
+    ANY non-negative one is a tolerance.  (Tolerance 0 violates picosvg's precondition:
+    known finding F9.)"""
+    return self._normalize_tolerance == self._reuse_tolerance / 10
 
 
 def _key(self, path):
@@ -86,7 +85,7 @@ def _match(self, path):
     """picosvg reports a usable match: a donor with the same normal form, an affine between
     them, and that affine fits OpenType Fixed"""
     return (
-        self._reuse_tolerance != -1
+        self._reuse_tolerance >= 0
         and map_has(self._reusable_paths, _key(self, path))
         and AB_some(_donor(self, path)[1], path, self._reuse_tolerance)
         and all(spec.in_fixed(v) for v in AB(_donor(self, path)[1], path, self._reuse_tolerance))
@@ -109,7 +108,7 @@ class try_reuse:
         ),
         # C16: never an affine that cannot be stored as Fixed
         "fixed-safe": lambda result: isnone(result) or all(spec.in_fixed(v) for v in result.transform),
-        "reuse-disabled": lambda self, result: implies(self._reuse_tolerance == -1, isnone(result)),
+        "reuse-disabled": lambda self, result: implies(self._reuse_tolerance < 0, isnone(result)),
         "cache-untouched": lambda self, old: map_same(self._reusable_paths, old.self._reusable_paths)
         and map_same(self._known_glyphs, old.self._known_glyphs),
     }
@@ -125,7 +124,7 @@ class add_glyph:
         "registered-under-its-normal-form": lambda self, glyph_name, glyph_path, old: map_is_update(
             self._reusable_paths,
             old.self._reusable_paths,
-            glyph_path if old.self._reuse_tolerance == -1 else _key(old.self, glyph_path),
+            glyph_path if old.self._reuse_tolerance < 0 else _key(old.self, glyph_path),
             (glyph_name, glyph_path),
         ),
         "known": lambda self, glyph_name, old: set_is_add(self._known_glyphs, old.self._known_glyphs, glyph_name),
